@@ -30,6 +30,8 @@ var kinds = []kindSpec{
 	{"int32", reflect.TypeOf(int32(0)), []interface{}{int32(0), int32(2), int32(9)}},
 	{"[]int32", reflect.TypeOf([]int32(nil)), []interface{}{[]int32(nil), []int32{1, 2}, []int32{1, 2, 3, 4}}},
 	{"uint64", reflect.TypeOf(uint64(0)), []interface{}{uint64(0), uint64(2), uint64(1) << 63}},
+	// a 32-bit float whose decimal text is short only at its own precision (2.1 widened to 64 bits prints 17 digits)
+	{"float32", reflect.TypeOf(float32(0)), []interface{}{float32(0), float32(2), float32(2.1)}},
 }
 
 // lists returns all rule lists (as item slices) of length 0..n over the menu.
